@@ -349,7 +349,7 @@ func c07SeqResetAlphabet() []*sessmc.Event {
 	a := []*sessmc.Event{sessmc.EvIn("D", 0, false)}
 	for _, n := range []int{-2, 0, 3} {
 		for _, gf := range []string{"Y", "N", ""} {
-			for _, rel := range []int{-1, 0, 1} {
+			for _, rel := range []int{-3, -1, 0, 1} {
 				for _, pd := range []bool{false, true} {
 					a = append(a, sessmc.EvSeqResetT(rel, n, gf, pd))
 				}
